@@ -162,8 +162,13 @@ func (gc *primaryGC) gc(ctx context.Context, lowUsePercent int64, timeLimit time
 		defer cancel()
 	}
 
+	// The number of the file currently written to changes during a flush.
+	gc.primary.flushLock.Lock()
+	lastFileNum := gc.primary.fileNum
+	gc.primary.flushLock.Unlock()
+
 	// GC each unvisited file in order.
-	for fileNum := header.FirstFile; fileNum != gc.primary.fileNum; fileNum++ {
+	for fileNum := header.FirstFile; fileNum != lastFileNum; fileNum++ {
 		if _, ok := gc.visited[fileNum]; ok {
 			continue
 		}
